@@ -139,6 +139,7 @@ type rtEnv struct {
 	sent   int
 	base   map[string]string // expvar snapshot
 	closed bool
+	hung   string // set when a load did not return: nothing more is asked of this environment
 }
 
 func expvarSnapshot() map[string]string {
@@ -175,6 +176,12 @@ func newRtEnv() (*rtEnv, error) {
 }
 
 func (e *rtEnv) close() {
+	if e.hung != "" {
+		// the loader is stuck holding its locks; leave the goroutines behind
+		e.closed = true
+		os.RemoveAll(e.dir)
+		return
+	}
 	if !e.closed {
 		e.closed = true
 		close(e.lines)
@@ -230,6 +237,9 @@ func (e *rtEnv) sendLine(text string) {
 }
 
 func (e *rtEnv) apply(op string) {
+	if e.hung != "" {
+		return
+	}
 	p := strings.Split(op, ":")
 	switch p[0] {
 	case "w":
@@ -250,7 +260,14 @@ func (e *rtEnv) apply(op string) {
 	case "mkdir":
 		_ = os.Mkdir(filepath.Join(e.dir, p[1]), 0o755)
 	case "load":
-		_ = e.rt.LoadAllPrograms()
+		// a load that never returns (a lock left behind, say) must not take the whole run with it
+		done := make(chan struct{})
+		go func() { _ = e.rt.LoadAllPrograms(); close(done) }()
+		select {
+		case <-done:
+		case <-time.After(30 * time.Second):
+			e.hung = "LoadAllPrograms did not return within 30 s"
+		}
 	case "l":
 		e.sendLine(p[1])
 	case "n":
@@ -338,6 +355,9 @@ func (e *rtEnv) scrape() (string, error) {
 }
 
 func (e *rtEnv) dump() string {
+	if e.hung != "" {
+		return "HUNG"
+	}
 	st := e.dumpStore()
 	s := strings.Join(st, " ")
 	return fmt.Sprintf("H[%s] C[%s] S[%s]", e.dumpHandles(), e.dumpCounters(), s)
